@@ -213,6 +213,14 @@ def run_shard(spec, tier, seed, budget_s):
             samebare = rng.choice([False, False, False, False, False, False, True, True, 'aliasshadow', 'aliasshadow-public', 'selfalias'])
             doc = biased_doc(rng, 'large' if k <= 2 else rng.choice(['small', 'medium', 'medium'] + (['large'] if tier == 'thorough' else [])), samebare)
             suite = samebare if isinstance(samebare, str) else ('samebare' if samebare else 'random')
+            if doc.enums and rng.random() < 0.3:
+                # the name-sake document first (same type names, no enum declares them)
+                da = gen.namesake(doc)
+                kn_ = {'addr': 'explicit'} if samebare == 'aliasshadow-public' else None
+                dba, erra = parse(surface.render(da, f'{seed}-{i}-{k}-ns', kn_))
+                sh.count('obs.docs.namesake-first')
+                if erra is None:
+                    check_identity(sh, da, dba, 'namesake', {'kind': 'identity', 'text': surface.render(da, f'{seed}-{i}-{k}-ns', kn_)})
             for s in range(nst):
                 text = surface.render(doc, f'{seed}-{i}-{k}-{s}', {'addr': 'explicit'} if samebare == 'aliasshadow-public' else
                                       {'addr': 'alias'} if samebare == 'selfalias' and s == 0 else None)
